@@ -390,6 +390,10 @@ public:
             nev_adj = nev_adjusted(nconv);
             restart(nev_adj, selection);
         }
+        // If maxit is exhausted, the last restart has produced new Ritz pairs,
+        // and the convergence flags must be recomputed for them
+        if (i >= maxit)
+            nconv = num_converged(tol);
         // Sorting results
         sort_ritzpair(sorting);
 
